@@ -536,6 +536,7 @@ CallAtomic(h, name, args) ==
   \* a builtin passed as the DATA argument: str and dict are Python types with attributes of their own
   \* (split(str) calls str.split(" ")), the others are functions; what Python does with them is not specified here
   ELSE IF n >= 1 /\ a1.t \in {"builtin", "hostfn"} /\ name \notin {"list", "__setitem__", "push", "insert"} THEN R(h, Unspec("function object as data argument"))
+  ELSE IF name # "list" /\ \E i \in 1..n : args[i] = Builtin("str") THEN R(h, Unspec("the type str as an argument"))
   ELSE IF name \in {"join", "pretty", "split", "replace", "min", "max", "str", "strip", "lower", "upper"} /\ \E i \in 1..n : TooLong(h, args[i])
   THEN R(h, Unspec("operand too long for the specification's sequence functions"))
   ELSE
